@@ -45,7 +45,49 @@ class Prop(BaseProp):
             return '(' + (' %s ' % t[0]).join(text(x) for x in t[1:]) + ')'
         return {'table': table, 'tree': parts[0], 'texts': [text(t) for t in parts], 'via': 'combine-strings', 'tmpl': rng.randrange(len(TEMPLATES)), 'order': 0}
 
+    def case_attr(self, rng):
+        """a table of LicenseSymbol subclass instances that carry an extra attribute, a text over its keys with WITH pairs, and a
+        template that shows that attribute"""
+        table = gen.gen_table(rng, allow_op=False, aliases=False)
+        if not table:
+            table = [['mit', [], False], ['cp', [], True]]
+        keys = [k for k, _, _ in table]
+        t = gen.gen_tree(rng, keys, depth=rng.randint(1, 3), maxar=3, with_p=0.5, flags=False)
+        return {'table': table, 'tree': t, 'text': gen.tree_text(rng, t), 'via': rng.choice(['attr', 'attr-simplify', 'attr-dedup']), 'tmpl': 0, 'order': 0}
+
+    def eval_attr(self, drv, case):
+        class Sub(impl.le.LicenseSymbol):
+            def __init__(self, key, **kw):
+                impl.le.LicenseSymbol.__init__(self, key, **kw)
+                self.kind = 'lic'
+        table, text = case['table'], case['text']
+        if not impl.lower_is_charwise(text):
+            return Verdict('skip', case)
+        lic = impl.le.Licensing([Sub(k, aliases=tuple(al), is_exception=ex) for k, al, ex in table])
+        try:
+            e = lic.parse(text)
+        except impl.le.ExpressionError:
+            return Verdict('skip', case)
+        if case['via'] == 'attr-simplify':
+            e = e.simplify()
+        elif case['via'] == 'attr-dedup':
+            e = lic.dedup(e)
+        t0 = impl.tree_c(e)
+        tags = ['via=' + case['via']]
+        want_t, want_r = drv.call_many([(T('rendert'), 'lic:', '', t0), (T('readablet'), 'lic:', '', t0)])
+        for name, fn, want in (('render', lambda: e.render('{symbol.kind}:{symbol.key}'), want_t),
+                               ('render_as_readable', lambda: e.render_as_readable('{symbol.kind}:{symbol.key}'), want_r)):
+            try:
+                got = fn()
+            except BaseException as ex:  # noqa
+                got = 'raised ' + type(ex).__name__
+            if got != want:
+                return Verdict('spec', case, '%s with a template over an attribute the symbols of the table carry' % name, impl=got, model=want, tags=tags)
+        return Verdict('ok', case, impl=want_t, nontrivial=True, key=[table, t0, 'attr'], tags=tags)
+
     def case_random(self, rng):
+        if rng.random() < 0.08:
+            return self.case_attr(rng)
         if rng.random() < 0.12:
             return self.case_strings(rng)
         table = gen.gen_table(rng, allow_op=False, aliases=False)
@@ -66,8 +108,10 @@ class Prop(BaseProp):
 
     def eval_case(self, drv, case):
         table, tree = case['table'], case['tree']
-        lic = P.licensing(table)
         via = case['via']
+        if via.startswith('attr'):
+            return self.eval_attr(drv, case)
+        lic = P.licensing(table)
         if via == 'combine-strings':
             if not all(impl.lower_is_charwise(t) for t in case['texts']):
                 return Verdict('skip', case)
